@@ -155,6 +155,13 @@ func (m Migrator) AutoMigrate(values ...interface{}) error {
 						if err = execTx.Migrator().AddColumn(value, dbName); err != nil {
 							return err
 						}
+						// a column added later needs its unique constraint too
+						if field := stmt.Schema.FieldsByDBName[dbName]; field.Unique && !field.PrimaryKey {
+							constraint := m.DB.NamingStrategy.UniqueName(stmt.Table, dbName)
+							if err = execTx.Migrator().CreateConstraint(value, constraint); err != nil {
+								return err
+							}
+						}
 					} else {
 						// found, smartly migrate
 						field := stmt.Schema.FieldsByDBName[dbName]
